@@ -438,7 +438,8 @@ TrFmtFromStr == IsOp("fmt_from_str") /\ KeepAll /\
 TrRender == IsOp("render") /\ KeepAll /\ Has(E.res, "v") /\
       LET pf == X!ParseFormat(E.fmt) IN
         pf.ok /\ (X!AllJudged(pf.items) =>
-          \E rc \in ConvCands(E.to) : E.res.v = X!Render(pf.items, E.to, rc.v, DV(E.off)))
+          \E rc \in ConvCands(E.to) : E.res.v = (IF E.how = 3 THEN X!RenderSet(pf.items, E.to, rc.v, DV(E.off))
+                                                     ELSE X!Render(pf.items, E.to, rc.v, DV(E.off))))
 (* each predefined format is the format its documentation states *)
 TrConstEq == IsOp("const_eq") /\ KeepAll /\ E.doc = X!DocOf(E.name) /\ TextIs(E.res, TRUE)
 TrRenderConst == IsOp("render_const") /\ KeepAll /\ Has(E.res, "v") /\
